@@ -191,7 +191,7 @@ func genAnyEntry(r *rand.Rand, depth int) V {
 	case 8:
 		return V{T: 'C', Form: "n", Kw: "k", Op: "c1", Xs: []V{{T: 'i', I: 2}}}
 	case 9:
-		return []V{{T: 'Z', Form: "n"}, {T: 'Y', Form: "n"}, {T: 'Z', Form: "a"}, {T: 'o', Ty: 1, ID: 1}, {T: 'o', Ty: 4, ID: 1}}[r.Intn(5)]
+		return []V{{T: 'Z', Form: "n"}, {T: 'Y', Form: "n"}, {T: 'Z', Form: "a"}, {T: 'o', Ty: 1, ID: 1}, {T: 'o', Ty: 4, ID: 1}, {T: 'o', Ty: 30, ID: 1}, {T: 'o', Ty: 30, ID: 2}}[r.Intn(7)]
 	case 10, 11, 12, 13:
 		if depth > 0 {
 			return genAnyRow(r, depth-1)
